@@ -99,6 +99,12 @@ pub fn one_case(r: &mut Rng, silent: &Arc<Mutex<Option<String>>>, debug: bool) -
     // everything else: the other choices of a case are what they were before this was added.
     let timed: Vec<bool> = (0..polls).map(|_| r.below(2) == 0).collect();
     let defer_taskrun = r.below(2) == 0;
+    // One case in four on a default ring with room for two more entries (drawn last: the other
+    // cases are what they were): the first waker thread queues an unrelated operation (a write
+    // that never completes) right before its first wake(), so the wake message is NOT at the head
+    // of the submission queue when wake() enters the kernel. The threads of the model queue wake
+    // messages only: these cases are judged by the oracle alone (no Coq term, nothing replayed).
+    let queue_ahead = r.below(4) == 0 && mode == 0 && prefill + 2 <= cap;
     let cfg = a10::Ring::config().with_submission_queue_size(cap);
     let cfg = match mode {
         // Built disabled: the thread that enables the ring (the poller) becomes its issuer.
@@ -206,9 +212,17 @@ pub fn one_case(r: &mut Rng, silent: &Arc<Mutex<Option<String>>>, debug: bool) -
             std::mem::forget(ring);
         }));
     }
-    for k in wakes_each.iter().copied() {
+    for (wi, k) in wakes_each.iter().copied().enumerate() {
         let sq = sq.clone();
+        let queue_first = queue_ahead && wi == 0;
         threads.push(Box::new(move || {
+            if queue_first {
+                let fd = Box::leak(Box::new(std::mem::ManuallyDrop::new(unsafe { a10::AsyncFd::from_raw_fd(3_000_000, sq.clone()) })));
+                let mut f: std::pin::Pin<Box<dyn std::future::Future<Output = std::io::Result<usize>> + Send>> = Box::pin(fd.write(DATA));
+                let w = crate::util::WakeLog::default().waker(0);
+                let _ = crate::util::poll_once(f.as_mut(), &w);
+                std::mem::forget(f);
+            }
             for _ in 0..k {
                 sq.wake();
             }
@@ -355,14 +369,14 @@ pub fn one_case(r: &mut Rng, silent: &Arc<Mutex<Option<String>>>, debug: bool) -
     simk::retire(ring_fd);
     let mode_s = ["Default", "SingleIssuer", "KernelThread"][mode as usize];
     let wk: Vec<String> = wakes_each.iter().map(|k| format!("{k}%nat")).collect();
-    let coq = format!(
+    let coq = if queue_ahead { String::new() } else { format!(
         "{{| wk_mode := {mode_s}; wk_cap := {cap}%N; wk_prefill := {prefill}%N; wk_parked := {n_parked}%N; wk_polls := {polls}%nat; wk_timed := [{}]; wk_wakes := [{}]; wk_events := [{events}] |}}",
         timed.iter().map(|b| b.to_string()).collect::<Vec<_>>().join("; "),
         wk.join("; ")
-    );
+    ) };
     let plan_s: Vec<String> = plan.iter().map(|p| format!("\"{p:?}\"")).collect();
     let json = format!(
-        "{{\"mode\":\"{mode_s}\",\"sq_entries\":{cap},\"queued_before\":{prefill},\"futures_parked_before\":{n_parked},\"polls\":{polls},\"poll_timeout_per_poll\":[{}],\"single_issuer_defer_taskrun\":{},\"wakes_per_waker\":{:?},\"enter_interrupted_per_poll\":[{}],\"schedule\":[{jsched}]}}",
+        "{{\"mode\":\"{mode_s}\",\"unrelated_submission_queued_by_waker0_before_wake\":{queue_ahead},\"sq_entries\":{cap},\"queued_before\":{prefill},\"futures_parked_before\":{n_parked},\"polls\":{polls},\"poll_timeout_per_poll\":[{}],\"single_issuer_defer_taskrun\":{},\"wakes_per_waker\":{:?},\"enter_interrupted_per_poll\":[{}],\"schedule\":[{jsched}]}}",
         timed.iter().map(|b| if *b { "\"Some(3600s)\"" } else { "\"None\"" }).collect::<Vec<_>>().join(","),
         mode == 1 && defer_taskrun,
         wakes_each,
@@ -421,6 +435,7 @@ pub fn one_case(r: &mut Rng, silent: &Arc<Mutex<Option<String>>>, debug: bool) -
         format!("timed_poll_blocked_then_woken:{}", blocked_timed_then_woken),
         format!("single_issuer_ring:{}", if mode != 1 { "-" } else if defer_taskrun { "defer_taskrun" } else { "plain" }),
         format!("enters_refused_not_issuer:{refused}"),
+        format!("unrelated_submission_in_front_of_wake_message:{}", if !queue_ahead { "-".to_string() } else { format!("poller_blocked_then_woken={blocked_then_woken}") }),
     ];
     Case { coq, obs, json, oracle, known: None, tags, nontrivial: preemptions > 0 }
 }
